@@ -5,8 +5,10 @@
        characters, no empty path segment), and
      - the ABSENCE of every recorded refuted shape: each [shape_*] detector
        below corresponds to exactly one [refuted_*] theorem of Properties.v /
-       one known finding D1..D10 (Examples.v shows that each witness violates
-       exactly its own conjunct).
+       one known finding that is still open (D1, D3, D5, D7, D8, D10 and the
+       top-level mixed keys of an "imports" object, the rest of D4); D2, D4
+       (nested objects) and D12 were repaired in /repo (e3ac7b5, 4e82ea6,
+       6e6e7fa): the model follows the fixed code and their detectors are gone.
    [in_scope_*_split] (ScopeProofs.v) proves
      in_scope = documented && fragment && no refuted shape. *)
 From V Require Import Common.Base C11.Str C11.EsbuildResolve C11.NodeSpec C11.SortLemmas.
@@ -15,11 +17,14 @@ Local Open Scope Z_scope.
 Definition slash_s : str := [ch_slash].
 
 (* ---------------- refuted shapes ---------------- *)
-(* D2: the two invalid-segment rules disagree on a target / on a pattern match *)
-Definition shape_segment_target (t : str) : bool :=
+(* The two invalid-segment rules.  After the fix e3ac7b5 esbuild decodes a
+   segment and compares ignoring case, like Node's regular expression; their
+   agreement on every string is not proved (it is checked on every generated
+   case), so it stays a condition of the modelled fragment, not a refuted shape *)
+Definition seg_differ_target (t : str) : bool :=
   prefixb dot_slash t && negb (Bool.eqb (find_invalid_segment t) (node_invalid_segments (skipn 2 t))).
-Definition shape_segment_match (p : str) : bool :=
-  negb (Bool.eqb (find_invalid_segment p) (node_invalid_segments p)).
+Definition seg_differ_match (p : str) : bool :=
+  negb (Bool.eqb (find_invalid_subpath_segment p) (node_invalid_segments p)).
 (* D8: a bare target of an imports map that parses as a URL *)
 Definition shape_url_target (imp : bool) (t : str) : bool :=
   negb (prefixb dot_slash t) && imp && is_valid_url t.
@@ -27,9 +32,10 @@ Definition shape_url_target (imp : bool) (t : str) : bool :=
 Fixpoint nodupb (l : list str) : bool :=
   match l with [] => true | x :: r => negb (mem_str x r) && nodupb r end.
 Definition shape_dup_key (kvs : list (str * json)) : bool := negb (nodupb (map fst kvs)).
-(* esbuild rejects a mixed object at any depth, Node only at the top of
-   "exports" (where both refuse: the conjunct over-excludes that one case) *)
-Definition shape_mixed_keys (kvs : list (str * json)) : bool := negb (consistent_keys (map fst kvs)).
+(* D4, what is left of it: the top-level object of "imports" must not mix keys
+   with and without a leading "." for esbuild; Node ignores the odd keys *)
+Definition shape_imports_top_mixed (j : json) : bool :=
+  match j with JObj kvs => negb (consistent_keys (map fst kvs)) | _ => false end.
 Definition shape_index_key (kvs : list (str * json)) : bool :=
   existsb (fun kv => is_array_index (fst kv)) kvs.
 (* D1: a pattern key whose base is the whole match key *)
@@ -45,9 +51,11 @@ Definition no_empty_segment (rest : str) : bool :=
   negb (existsb (fun g => str_eqb g []) (split_on (Z.eqb ch_slash) rest)).
 (* only matters for a target that both sides accept *)
 Definition fragment_target (t : str) : bool :=
-  if prefixb dot_slash t && negb (find_invalid_segment t)
-  then url_plain t && no_empty_segment (skipn 2 t) else true.
-Definition fragment_match (p : str) : bool := find_invalid_segment p || url_plain p.
+  negb (seg_differ_target t)
+  && (if prefixb dot_slash t && negb (find_invalid_segment t)
+      then url_plain t && no_empty_segment (skipn 2 t) else true).
+Definition fragment_match (p : str) : bool :=
+  negb (seg_differ_match p) && (find_invalid_subpath_segment p || url_plain p).
 
 (* ---------------- generic traversal ---------------- *)
 Fixpoint json_all (T : str -> bool) (O : list (str * json) -> bool) (j : json) : bool :=
@@ -58,10 +66,9 @@ Fixpoint json_all (T : str -> bool) (O : list (str * json) -> bool) (j : json) :
   | JNull | JBad => true
   end.
 
-Definition target_no_shape (imp : bool) (t : str) : bool :=
-  negb (shape_segment_target t) && negb (shape_url_target imp t).
+Definition target_no_shape (imp : bool) (t : str) : bool := negb (shape_url_target imp t).
 Definition obj_no_shape (kvs : list (str * json)) : bool :=
-  negb (shape_mixed_keys kvs) && negb (shape_index_key kvs) && negb (shape_dup_key kvs).
+  negb (shape_index_key kvs) && negb (shape_dup_key kvs).
 
 Definition target_ok (imp : bool) (t : str) : bool := target_no_shape imp t && fragment_target t.
 Definition obj_ok (kvs : list (str * json)) : bool := obj_no_shape kvs && true.
@@ -76,10 +83,9 @@ Definition pattern_match_of (mk k : str) : str :=
   | None => []
   end.
 
-Definition pm_ok (p : str) : bool := negb (shape_segment_match p) && fragment_match p.
+Definition pm_ok (p : str) : bool := fragment_match p.
 
-Definition key_no_shape (mk k : str) : bool :=
-  negb (shape_pattern_base mk k) && negb (shape_segment_match (pattern_match_of mk k)).
+Definition key_no_shape (mk k : str) : bool := negb (shape_pattern_base mk k).
 Definition key_fragment (mk k : str) : bool := fragment_match (pattern_match_of mk k).
 Definition key_documented (k : str) : bool := negb (ends_with_slash k).
 Definition key_ok (mk k : str) : bool := key_documented k && key_no_shape mk k && key_fragment mk k.
@@ -96,7 +102,7 @@ Definition in_scope_exports (exports : json) (subpath : str) : bool :=
 
 Definition in_scope_imports (imports : json) (specifier : str) : bool :=
   match_key_ok specifier && json_ok true imports
-  && negb (shape_hash_slash specifier)
+  && negb (shape_hash_slash specifier) && negb (shape_imports_top_mixed imports)
   && top_keys (key_ok specifier) imports.
 
 (* ---- the three components ---- *)
@@ -106,7 +112,7 @@ Definition fragment_ok (j : json) (mk : str) : bool :=
   json_all fragment_target (fun _ => true) j && top_keys (key_fragment mk) j.
 Definition no_refuted_shape (imp : bool) (j : json) (mk : str) : bool :=
   negb (shape_star_specifier mk)
-  && negb (imp && shape_hash_slash mk)
+  && negb (imp && shape_hash_slash mk) && negb (imp && shape_imports_top_mixed j)
   && json_all (target_no_shape imp) obj_no_shape j
   && top_keys (key_no_shape mk) j.
 
